@@ -324,8 +324,7 @@ class VariableElimination(Inference):
         # Step 2: If virtual_evidence is provided, modify the network.
         if isinstance(self.model, BayesianNetwork) and (virtual_evidence is not None):
             orig_model = self.model
-            self._virtual_evidence(virtual_evidence)
-            virt_evidence = {"__" + cpd.variables[0]: 0 for cpd in virtual_evidence}
+            virt_evidence = self._virtual_evidence(virtual_evidence)
             try:
                 return self.query(
                     variables=variables,
@@ -579,8 +578,7 @@ class VariableElimination(Inference):
 
         if isinstance(self.model, BayesianNetwork) and (virtual_evidence is not None):
             orig_model = self.model
-            self._virtual_evidence(virtual_evidence)
-            virt_evidence = {"__" + cpd.variables[0]: 0 for cpd in virtual_evidence}
+            virt_evidence = self._virtual_evidence(virtual_evidence)
             try:
                 return self.map_query(
                     variables=variables,
@@ -1136,8 +1134,7 @@ class BeliefPropagation(Inference):
 
         # Step 2: If virtual_evidence is provided, modify model and evidence.
         if isinstance(self.model, BayesianNetwork) and (virtual_evidence is not None):
-            self._virtual_evidence(virtual_evidence)
-            virt_evidence = {"__" + cpd.variables[0]: 0 for cpd in virtual_evidence}
+            virt_evidence = self._virtual_evidence(virtual_evidence)
             try:
                 return self.query(
                     variables=variables,
@@ -1242,8 +1239,7 @@ class BeliefPropagation(Inference):
         orig_model = self.model.copy()
 
         if isinstance(self.model, BayesianNetwork) and (virtual_evidence is not None):
-            self._virtual_evidence(virtual_evidence)
-            virt_evidence = {"__" + cpd.variables[0]: 0 for cpd in virtual_evidence}
+            virt_evidence = self._virtual_evidence(virtual_evidence)
             try:
                 return self.map_query(
                     variables=variables,
